@@ -52,3 +52,9 @@ package radixtree
 //@ func (*Tree).delNode
 //@   props C02 C06
 //@   assert at return#2: len(n.values) == 0 ==> n.backtrackingEnabled
+
+// the lookup either yields an entry or an error (ghost log tfind)
+//@ func (*Tree).Find
+//@   props C02
+//@   logged tfind
+//@   ensures (ret1 == nil) == (ret0 != nil)
